@@ -249,6 +249,62 @@ func scenario(p pair, seed int64) string {
 	return ""
 }
 
+// endpointRaces: the endpoint objects themselves are used from several goroutines at once -- Listen / Address / GetOption /
+// SetOption / Close on one listener, Dial / Address / GetOption / SetOption / Close on one dialer -- on every transport.
+func endpointRaces(tr string, seed int64) string {
+	r := rand.New(rand.NewSource(seed))
+	for round := 0; round < 6; round++ {
+		a, b := wire.New("pair"), wire.New("pair")
+		ad := wire.Addr(tr)
+		l, err := b.NewListener(ad, wire.Opts(tr, true))
+		if err != nil {
+			a.Close()
+			b.Close()
+			return "NewListener: " + err.Error()
+		}
+		var wg sync.WaitGroup
+		run := func(f func()) {
+			wg.Add(1)
+			go func() {
+				defer wg.Done()
+				guard(tr+" endpoint", f)
+			}()
+		}
+		d1 := time.Duration(r.Intn(300)) * time.Microsecond
+		run(func() { _ = l.Listen() })
+		run(func() { _ = l.Address(); _, _ = l.GetOption(mangos.OptionMaxRecvSize) })
+		run(func() { _ = l.SetOption(mangos.OptionMaxRecvSize, 4096) })
+		run(func() { time.Sleep(d1); _ = l.Close() })
+		wg.Wait()
+		l2, err := b.NewListener(wire.Addr(tr), wire.Opts(tr, true))
+		if err == nil {
+			if l2.Listen() == nil {
+				d, err := a.NewDialer(l2.Address(), wire.Opts(tr, false))
+				if err == nil {
+					_ = d.SetOption(mangos.OptionDialAsynch, round%2 == 0)
+					run(func() { _ = d.Dial() })
+					run(func() { _ = d.Address(); _, _ = d.GetOption(mangos.OptionMaxRecvSize) })
+					run(func() { _ = d.SetOption(mangos.OptionMaxRecvSize, 8192) })
+					run(func() { time.Sleep(d1); _ = d.Close() })
+					wg.Wait()
+				}
+			}
+			_ = l2.Close()
+		}
+		done := make(chan struct{})
+		go func() { guard("close", func() { _ = a.Close(); _ = b.Close() }); close(done) }()
+		select {
+		case <-done:
+		case <-time.After(5 * time.Second):
+			buf := make([]byte, 1<<20)
+			n := runtime.Stack(buf, true)
+			fmt.Fprintf(os.Stderr, "C11-DEADLOCK Close did not return within 5s after endpoint races on %s\n%s\n", tr, buf[:n])
+			return "deadlock"
+		}
+	}
+	return ""
+}
+
 func snapshotPipes(e *wire.Events) []mangos.Pipe {
 	var ps []mangos.Pipe
 	e.Wait(0, func(ev *wire.Events) bool { ps = append(ps, ev.Pipes...); return true })
@@ -268,6 +324,12 @@ func main() {
 		}
 		res := scenario(p, seed*1000+int64(i))
 		fmt.Printf("scenario %s/%s %s\n", p.a, p.b, map[bool]string{true: "ok", false: res}[res == ""])
+	}
+	if only == "" || only == "endpoints" {
+		for i, tr := range wire.Transports {
+			res := endpointRaces(tr, seed*77+int64(i))
+			fmt.Printf("scenario endpoints/%s %s\n", tr, map[bool]string{true: "ok", false: res}[res == ""])
+		}
 	}
 	fmt.Printf("panics %d\n", atomic.LoadInt32(&panics))
 }
